@@ -56,6 +56,11 @@ pub fn examine(ctx: &Ctx, out: &mut Out, text: &str, gtext: &str, origin: &str) 
     let co = text.contains("#[coinductive]") || text.contains("#[auto]");
     for (name, choice) in solver_choices() {
         let _ = (unknowns, co);
+        if name == "recursive" && crate::ops::fp::growing_wrappers(text) >= 2 {
+            // F34 (C09's): two growing impls, the recursive solver does not return in practice
+            out.count("recursive_skipped_two_growing_impls");
+            continue;
+        }
         if name == "recursive" && text.contains("if not") {
             // F12 (coinductive unknowns) / F18 (negative cycles): the recursive solver does not return
             out.count("recursive_skipped_known_divergence");
